@@ -91,6 +91,16 @@ Theorem C06_effect_atf :
 Proof. exact effect_atf. Qed.
 Print Assumptions C06_effect_atf.
 
+Theorem C06_atf_child_index_iff :
+  forall ps i a b k, atf_child_index ps i a b = Some k <-> b = S a /\ k = S (family_endpoint ps i).
+Proof. exact atf_child_index_iff. Qed.
+Print Assumptions C06_atf_child_index_iff.
+
+Theorem C06_atf_child_index_in_family :
+  forall ps i a b k, WFmap ps -> atf_child_index ps i a b = Some k -> i < k /\ k = S (family_endpoint ps i) /\ (forall x, In x (all_children ps i) -> x < k).
+Proof. exact atf_child_index_in_family. Qed.
+Print Assumptions C06_atf_child_index_in_family.
+
 Theorem C06_delete_removes_family :
   forall o ls i j x, i < length ls -> forall ls', text_effect o ls (ODelete i) = Ok ls' -> (In (j, x) (keep_idx (i :: all_children (tree_parents o ls) i) 0 ls) <-> nth_error ls j = Some x /\ j <> i /\ ~ ancestor (tree_parents o ls) i j).
 Proof. exact delete_removes_family. Qed.
